@@ -44,6 +44,28 @@ Theorem C16_element_text : forall id secret : str,
   parse_handshake_element (handshake_element id secret) = Some (handshake id secret).
 Proof. exact parse_handshake_element_digest. Qed.
 
+(* One component value connecting several times (reconnection): on the k-th connection
+   the digest is hex (SHA-1 (id_k ++ secret)) - a function of that connection's stream
+   id and the secret only, whatever was hashed on earlier connections ... *)
+Theorem C16_digest_per_connection : forall (secret : str) (ids : list str) (k : nat) (id : str),
+  nth_error ids k = Some id ->
+  nth_error (handshakes secret ids) k = Some (hex (sha1 (id ++ secret))).
+Proof. exact handshakes_nth. Qed.
+
+(* ... and what is written on the k-th connection is exactly the element for id_k. *)
+Theorem C16_written_per_connection :
+  forall (secret : str) (es : list env) (k : nat) (e : env) (id : str),
+  nth_error es k = Some e -> e_pre e = PConnected id -> e_write_ok e = true ->
+  exists r, nth_error (component_sessions secret es) k = Some r /\
+            r_written r = [open_tag ++ hex (sha1 (id ++ secret)) ++ close_tag].
+Proof. exact sessions_written_nth. Qed.
+
+(* Each connection is classified as a first connection would be. *)
+Theorem C16_sessions_independent : forall (secret : str) (es : list env) (k : nat) (e : env),
+  nth_error es k = Some e ->
+  nth_error (component_sessions secret es) k = Some (component_connect secret e).
+Proof. exact sessions_nth. Qed.
+
 (* SHA-1 is specified by its own model; FIPS 180 vectors (one, one, two, three and
    sixteen blocks), the repository's own test value, and the argument order. *)
 Theorem C16_fips180_vectors :
@@ -150,6 +172,9 @@ Print Assumptions C16_digest_xml_safe.
 Print Assumptions C16_digest_def.
 Print Assumptions C16_written_def.
 Print Assumptions C16_element_text.
+Print Assumptions C16_digest_per_connection.
+Print Assumptions C16_written_per_connection.
+Print Assumptions C16_sessions_independent.
 Print Assumptions C16_fips180_vectors.
 Print Assumptions C16_words_mod_2_32.
 Print Assumptions C16_established_iff_handshake.
